@@ -219,6 +219,14 @@ int _GD_GetScalar(DIRFILE *restrict D, const char *restrict scalar,
       index = *index_in = 0;
     }
 
+    /* an element beyond the end of the CARRAY is no scalar at all */
+    if (C->field_type == GD_CARRAY_ENTRY &&
+        (size_t)index >= C->EN(scalar,array_len))
+    {
+      dreturn("%i", GD_E_SCALAR_CODE);
+      return GD_E_SCALAR_CODE;
+    }
+
     _GD_DoField(D, C, repr, index, 1, type, data);
 
     if (E && (D->flags & GD_ACCMODE) == GD_RDWR) {
